@@ -733,6 +733,19 @@ func (fr *Frame) runSites(ins ssa.Instruction, when string, pc string, st *State
 				at = typeNameShort(c.Args[0].Type())
 			}
 			env.vars["argtype0"] = tv{t: vc.d.strLit(at), ty: tString}
+			// source-level name of the first argument when it is a variable (phi / parameter), e.g. which slice is appended to
+			an := ""
+			if len(c.Args) > 0 {
+				switch a := c.Args[0].(type) {
+				case *ssa.Phi:
+					an = a.Comment
+				case *ssa.Parameter:
+					an = a.Name()
+				default:
+					an = fr.debugName(c.Args[0])
+				}
+			}
+			env.vars["argname0"] = tv{t: vc.d.strLit(an), ty: tString}
 			if c.IsInvoke() {
 				env.vars["recv"] = tv{t: fr.v1(c.Value), ty: c.Value.Type()}
 			}
@@ -980,4 +993,20 @@ func (fr *Frame) topFrame() *Frame {
 		f = f.parent
 	}
 	return f
+}
+
+// debugName: the source variable an SSA value is bound to (via go/ssa debug refs), "" if none or ambiguous.
+func (fr *Frame) debugName(v ssa.Value) string {
+	name := ""
+	for _, b := range fr.fn.Blocks {
+		for _, ins := range b.Instrs {
+			if dr, ok := ins.(*ssa.DebugRef); ok && !dr.IsAddr && dr.X == v && dr.Object() != nil {
+				if name != "" && name != dr.Object().Name() {
+					return ""
+				}
+				name = dr.Object().Name()
+			}
+		}
+	}
+	return name
 }
